@@ -383,10 +383,10 @@ fn c01_acknack_after_lost_fragment() {
     kani::cover!(n_missing == 1, "one change missing");
 }
 
-// NOT INDEXED (measured on the fixed tree: CBMC error after 700 s / 12 GB - the extra frag_buffer.retain on a non-empty
-// heap buffer makes its length symbolic for every later loop of write_message). The GAP half of fix 1d5179c is covered by
-// code reading only; c01_acknack_after_lost_fragment covers the firstSN half.
-// @disabled-check props=C01 tier=thorough
+// Thorough tier only: needs the 16 GB limit of the C01 ptab entry (388 s; exceeded 12 GB before the driver dropped
+// assertion reach checks) - the extra frag_buffer.retain on a non-empty heap buffer makes its length symbolic for every
+// later loop of write_message.
+// @check props=C01 tier=thorough
 // @desc Reader request step after a buffered fragment became stale because a GAP declared its sample irrelevant (second scenario of the defect repaired by fix 1d5179c): the ACKNACK answering the next HEARTBEAT names every missing sequence number and carries no NACK_FRAG.
 // @bounds state symbolic with sequence numbers <= 1000, 1..=2 missing changes, one fragment of a GAPped sample; unwind 4
 // @assume datagram container stubbed by support_rtps::from_submessages_staged; critical-section stubs
@@ -420,7 +420,8 @@ fn c01_acknack_with_fragment() {
     kani::cover!(!partial && n_missing == 0, "fragment of a not yet announced sample: no NACK_FRAG");
 }
 
-// NOT INDEXED (measured: CBMC error after 380 s / 12 GB - two ACKNACK+NACK_FRAG emissions with a buffered fragment).
+// NOT INDEXED (measured: CBMC error after 380 s / 12 GB and again after 555 s / 16 GB - two ACKNACK+NACK_FRAG emissions
+// with a buffered fragment).
 // The single-round obligation (count > 0 = greater than the writer's initial last-received count) is asserted by
 // c01_acknack_with_fragment; strict growth over rounds follows from fix d91489d by code reading (wrapping_add(1) per emission).
 // @disabled-check props=C05 tier=thorough
